@@ -79,6 +79,7 @@ type Exec struct {
 	pureLets        [][2]string
 	callerFrame     *frame
 	lastArgTypes    map[string]types.Type
+	strLits         map[string]string
 	letDepth        int
 	qrec            map[string]*qRecord
 }
@@ -93,7 +94,7 @@ type qRecord struct {
 func newExec(w *World, u *Unit) *Exec {
 	ex := &Exec{w: w, unit: u, declared: map[string]string{}, keySort: map[string]string{}, defCache: map[string]string{},
 		used: map[string]bool{}, strs: map[string]string{}, loopMods: map[string]map[string]bool{}, loopAll: map[string]bool{}, oblCount: map[string]int{},
-		cellFuncs: map[string]*FuncInfo{}, calledContracts: map[*Contract]bool{}, coverAcc: map[string][]string{}, sentinels: map[string]types.Type{}, qrec: map[string]*qRecord{}, curReach: "true", lastArgTypes: map[string]types.Type{}}
+		cellFuncs: map[string]*FuncInfo{}, calledContracts: map[*Contract]bool{}, coverAcc: map[string][]string{}, sentinels: map[string]types.Type{}, qrec: map[string]*qRecord{}, curReach: "true", lastArgTypes: map[string]types.Type{}, strLits: map[string]string{}}
 	ex.baseInit = &Base{id: 0}
 	ex.declare("str_empty", sStr)
 	return ex
@@ -197,6 +198,7 @@ func (ex *Exec) strConst(s string) string {
 	}
 	n := fmt.Sprintf("str!%d_%s", len(ex.strs), sanitize(trunc(s, 16)))
 	ex.strs[s] = n
+	ex.strLits[n] = s
 	ex.declare(n, sStr)
 	return n
 }
@@ -570,6 +572,9 @@ func (ex *Exec) mapHas(st *State, m Val, k string) string {
 	ks := mapKeySort(mt)
 	key := "MH|" + typeKey(mt)
 	h := ex.heapGet(st, key, heapKeySort("MH", "", ks))
+	if rec, ok := ex.qrec[k]; ok {
+		rec.pats = append(rec.pats, sel(h, m.L[0], k))
+	}
 	return sel(h, m.L[0], k)
 }
 
